@@ -12,6 +12,9 @@ THEOREMS = {
     "C06": ["incremental_eq_batch", "spec_chunked", "rowsOf_append", "fitRec_append", "first_partial_is_fit", "neighbors_history"],
     "C07": ["fit_discards", "resetFor_congr", "sameConfig_fresh", "fit_after_history_eq_fresh"],
     "C09": ["argmax_first", "foldMax_spec", "argmaxFirst_mem", "predict_eq_argmax", "leWith_val"],
+    "C10": ["predictExp_readonly", "predict_readonly", "impPredict_readonly", "query_readonly"],
+    "C13": ["ws_pairs_spec", "ws_target", "ws_untouched", "cold_arms_spec", "cold_not_trained", "coldToWarm_targets",
+            "copyFold_get_target", "copyFold_get_other", "argminFirst_spec"],
     "C17": ["rejected_noop", "train_rejected_noop", "query_rejected_noop", "rejected_then_continue"],
 }
 
@@ -21,6 +24,8 @@ IMPORTS = {
     "C06": ["MabModel.Props.C06"],
     "C07": ["MabModel.Props.C07"],
     "C09": ["MabModel.Props.C09"],
+    "C10": ["MabModel.Props.C10"],
+    "C13": ["MabModel.Props.C13"],
     "C17": ["MabModel.Props.C17"],
 }
 
